@@ -680,15 +680,21 @@ def main():
             n_calls += len(tr["ev"])
             if job.get("expect_parts"):
                 # refined-state conformance: the partition the model (SolverComposite.tla) predicts for this history
-                want = job["expect_parts"][i]
-                got = next((e for e in tr["ev"] if e["call"] == "partition"), None)
-                if got is not None and got["exc"] == "":
+                wants = job["expect_parts"][i]
+                gots = [e for e in tr["ev"] if e["call"] == "partition"]
+                if isinstance(wants, dict):
+                    wants = [wants]
+                if len(gots) == len(wants) and all(g["exc"] == "" for g in gots):
                     drift["checked"] += 1
-                    if got["parts"] != want["parts"] or got["flag"] != want["flag"]:
+                    bad_ix = [j for j, (g, w) in enumerate(zip(gots, wants)) if g["parts"] != w["parts"] or g["flag"] != w["flag"]]
+                    got = gots[bad_ix[0]] if bad_ix else gots[0]
+                    want = wants[bad_ix[0]] if bad_ix else wants[0]
+                    if bad_ix:
                         # the model does not rewrite constraints; Z3's simplification does (x == 1 substituted into
                         # y == x, ...), which can only make the real partition FINER than the model's
-                        finer = got["flag"] == want["flag"] and all(
-                            any(set(g[0]) <= set(w[0]) and set(g[1]) <= set(w[1]) for w in want["parts"]) for g in got["parts"])
+                        finer = all(gots[j]["flag"] == wants[j]["flag"] and all(
+                            any(set(g[0]) <= set(w[0]) and set(g[1]) <= set(w[1]) for w in wants[j]["parts"])
+                            for g in gots[j]["parts"]) for j in bad_ix)
                         drift["finer" if finer else "drift"] += 1
                         if not finer and len(drift["samples"]) < 3:
                             drift["samples"].append({"history": H, "model": want, "code": {"parts": got["parts"], "flag": got["flag"]}})
